@@ -154,17 +154,73 @@ def c_grid3_maps(chk):
     for k, (name, var) in enumerate((("z", chi), ("pz", rz), ("pp", rp))):
         chk.vc(f"Grid3Scales.jacobian-is-derivative.{name}", d.pc + j.pc, Eq(j.value[k], deriv(d.value[k], var)),
                func=f"{fn}.compactificationDerivatives", kind="lemma")
-        chk.canary(f"Grid3Scales.jacobian-is-derivative.{name}", d.pc + j.pc, Eq(j.value[k], deriv(d.value[k], var) + 1),
-                   func=f"{fn}.compactificationDerivatives")
+        if name != "z":     # (for z the facts are checked for consistency by the reach obligation below: the +1 variant is very large)
+            chk.canary(f"Grid3Scales.jacobian-is-derivative.{name}", d.pc + j.pc, Eq(j.value[k], deriv(d.value[k], var) + 1),
+                       func=f"{fn}.compactificationDerivatives")
+        else:
+            chk.reach("Grid3Scales.jacobian-is-derivative.z", d.pc + j.pc, func=f"{fn}.compactificationDerivatives")
     for k, name in ((1, "pz"), (2, "pp")):
         chk.vc(f"Grid3Scales.jacobian-positive.{name}", j.pc, Gt(j.value[k], 0), func=f"{fn}.compactificationDerivatives")
-    chk.vc("Grid3Scales.jacobian-positive.z", j.pc + a_facts(), Gt(j.value[0], 0), func=f"{fn}.compactificationDerivatives")
     chk.vc("Grid3Scales.origin", d.pc, And(Eq(subs(d.value[0], {chi: 0}), zc), Eq(subs(d.value[1], {rz: 0}), 0),
                                            Eq(subs(d.value[2], {rp: -1}), 0)), func=f"{fn}.decompactify")
-    chk.vc("Grid3Scales.slope-at-centre", j.pc + a_facts(), Eq(subs(j.value[0], {chi: 0}), L / r),
-           func=f"{fn}.compactificationDerivatives")
-    chk.canary("Grid3Scales.slope-at-centre", j.pc + a_facts(), Eq(subs(j.value[0], {chi: 0}), 2 * L / r),
-               func=f"{fn}.compactificationDerivatives")
+    # ---- positivity and centre slope of the position Jacobian, by lemmas
+    aIn, aOut = real("aIn"), real("aOut")
+    A, B = 2 * tIn - L / r, 2 * tOut - L / r
+
+    def Sq(a, x):
+        return sp.sqrt(a**2 + x**2)
+
+    def gin(x):
+        return A * (1 - (x + r) / Sq(aIn, x + r)) / 2
+
+    def gout(x):
+        return B * (1 + (x - r) / Sq(aOut, x - r)) / 2
+    fj = f"{fn}.compactificationDerivatives"
+    # S1: structure of the code's Jacobian (two smoothed steps plus a constant, over 1 - chi^2)
+    chk.vc("Grid3Scales.jacobian.z.structure", j.pc, Eq(j.value[0] * (1 - chi**2), gin(chi) + gout(chi) + (1 - 2 * s) * L / r),
+           func=fj, kind="lemma")
+    # S2/S3: each step contributes smoothing * L / r at the centre (this is what aIn / aOut are tuned for)
+    fin, fout = a_facts()[:2], a_facts()[2:]
+    chk.vc("Grid3Scales.step-inside-at-centre", G3_INV + fin, Eq(gin(0), s * L / r), func=fj, kind="lemma")
+    chk.vc("Grid3Scales.step-outside-at-centre", G3_INV + fout, Eq(gout(0), s * L / r), func=fj, kind="lemma")
+    chk.canary("Grid3Scales.step-inside-at-centre", G3_INV + fin, Eq(gin(0), 2 * s * L / r), func=fj)
+    centre = [Eq(gin(0), s * L / r), Eq(gout(0), s * L / r)]          # proved just above
+    struct0 = Eq(subs(j.value[0], {chi: 0}), gin(0) + gout(0) + (1 - 2 * s) * L / r)   # S1 at chi = 0
+    chk.vc("Grid3Scales.jacobian.z.structure-at-centre", j.pc, struct0, func=fj, kind="lemma")
+    chk.vc("Grid3Scales.slope-at-centre", G3_INV + centre + [struct0], Eq(subs(j.value[0], {chi: 0}), L / r), func=fj)
+    chk.canary("Grid3Scales.slope-at-centre", G3_INV + centre + [struct0], Eq(subs(j.value[0], {chi: 0}), 2 * L / r), func=fj)
+    # M1: x / sqrt(a^2 + x^2) is increasing in x ; M2: it lies strictly between -1 and 1
+    a_, x_, y_ = real("a_"), real("x_"), real("y_")
+    m1 = Implies(And(Gt(a_, 0), Le(x_, y_)), Le(x_ / Sq(a_, x_), y_ / Sq(a_, y_)))
+    m2 = Implies(Gt(a_, 0), And(Lt(x_ / Sq(a_, x_), 1), Gt(x_ / Sq(a_, x_), -1)))
+    chk.vc("lemma.sigmoid-monotone", [], m1, func="lemma", kind="lemma")
+    chk.vc("lemma.sigmoid-bounded", [], m2, func="lemma", kind="lemma")
+    chk.canary("lemma.sigmoid-monotone", [], Implies(And(Gt(a_, 0), Le(x_, y_)), Le(y_ / Sq(a_, y_), x_ / Sq(a_, x_))), func="lemma")
+
+    def inst(lemma, **kw):
+        return subs(lemma, {real(k): v for k, v in kw.items()})
+    smooth = [Lt(s, 1)]       # documented precondition of Grid3Scales ("smoothing should be smaller than 1"), not asserted by the code
+    chk.assume_note("requires smoothing < 1 for strict monotonicity of the three-scale map: documented in the class docstring, NOT asserted by _updateParameters (for smoothing > 1 the position Jacobian becomes negative near chi = -+1)")
+    pos_facts = G3_INV + CUBE[:2] + [Gt(aIn, 0), Gt(aOut, 0)] + smooth + centre + [
+        inst(m1, a_=aIn, x_=chi + r, y_=r), inst(m1, a_=aIn, x_=r, y_=chi + r),
+        inst(m1, a_=aOut, x_=chi - r, y_=-r), inst(m1, a_=aOut, x_=-r, y_=chi - r),
+        inst(m2, a_=aIn, x_=chi + r), inst(m2, a_=aOut, x_=chi - r)]
+    f_chi = gin(chi) + gout(chi) + (1 - 2 * s) * L / r
+    # abstract step (bilinear): with U = (chi+r)/S_in(chi), U0 its value at the centre, V, V0 likewise for the outside step
+    U, U0, V, V0, Aa, Bb = (real(n) for n in ("U", "U0", "V", "V0", "Aa", "Bb"))
+    al_facts = [Gt(Aa, 0), Gt(Bb, 0), Gt(L, 0), Gt(r, 0), Gt(s, 0), Lt(s, 1), Gt(U, -1), Lt(U, 1), Gt(V, -1), Lt(V, 1),
+                Implies(Le(chi, 0), Le(U, U0)), Implies(Ge(chi, 0), Ge(V, V0)),
+                Eq(Aa * (1 - U0) / 2, s * L / r), Eq(Bb * (1 + V0) / 2, s * L / r)]
+    al_goal = Ge(Aa * (1 - U) / 2 + Bb * (1 + V) / 2 + (1 - 2 * s) * L / r, (1 - s) * L / r)
+    chk.vc("lemma.two-steps-lower-bound", al_facts, al_goal, func="lemma", kind="lemma")
+    chk.canary("lemma.two-steps-lower-bound", al_facts, Ge(Aa * (1 - U) / 2 + Bb * (1 + V) / 2 + (1 - 2 * s) * L / r, L / r), func="lemma")
+    conc = {U: (chi + r) / Sq(aIn, chi + r), U0: r / Sq(aIn, r), V: (chi - r) / Sq(aOut, chi - r), V0: -r / Sq(aOut, -r), Aa: A, Bb: B}
+    instance = Implies(And(*[subs(f, conc) for f in al_facts]), subs(al_goal, conc))
+    chk.vc("Grid3Scales.jacobian-positive.z.numerator", pos_facts + [instance, Gt(A, 0), Gt(B, 0)], Ge(f_chi, (1 - s) * L / r), func=fj)
+    chk.vc("Grid3Scales.steps-have-positive-height", G3_INV, And(Gt(A, 0), Gt(B, 0)), func=fj, kind="lemma")
+    chk.vc("Grid3Scales.jacobian-positive.z", j.pc + smooth + [Eq(j.value[0] * (1 - chi**2), f_chi), Ge(f_chi, (1 - s) * L / r)],
+           Gt(j.value[0], 0), func=fj)
+    chk.reach("Grid3Scales.jacobian-positive.z", pos_facts, func=fj)
     # inverse map offered by the same object: method resolution gives Grid.compactify
     from wgvc import source
     fi = source.find_method("grid3Scales", "Grid3Scales", "compactify")
@@ -179,7 +235,10 @@ def c_grid3_maps(chk):
     chk.notes.append(f"Grid3Scales.compactify resolves to {fi.module}.{fi.qualname}")
     zC = c.value[0]
     fwd = subs(zC, {z: d.value[0]})
-    chk.vc("Grid3Scales.inverse.compact-position", d.pc + c.pc + a_facts(), Eq(fwd, chi), func=f"{fn}.compactify")
+    HINT = {"chi": "1/2", "ratioPointsWall": "1/2", "smoothing": "1/10", "wallThickness": 1, "tailLengthInside": 2,
+            "tailLengthOutside": 2, "wallCenter": 0, "momentumFalloffT": 1, "rz": 0, "rp": 0}
+    chk.vc("Grid3Scales.inverse.compact-position", d.pc + c.pc + a_facts(), Eq(fwd, chi), func=f"{fn}.compactify",
+           meta={"hint": HINT})
 
 
 def c_cache(chk):
